@@ -144,6 +144,39 @@ func gen(g *core.G) {
 		seqs5(g, tokReps[:16])
 	}
 
+	// (i'') separators in every argument position: every bracket form of the grammar around every sequence of length <= 4
+	// over {word, number, `=>`, `,`} (dangling / doubled / leading rockets, stray commas, before each closer), bare and
+	// nested inside a list and inside type arguments
+	forms := [][2]string{{"[", "]"}, {"(", ")"}, {"{", "}"}, {"Foo[", "]"}, {"Foo(", ")"}, {"Foo{", "}"}, {"Deferred(", ")"}, {"Deferred[", "]"}}
+	atoms := []string{"a", "1", "=>", ","}
+	var argLists []string
+	var recA func(cur []string, n int)
+	recA = func(cur []string, n int) {
+		argLists = append(argLists, strings.Join(cur, " "))
+		if n == 0 {
+			return
+		}
+		for _, a := range atoms {
+			recA(append(cur, a), n-1)
+		}
+	}
+	maxArgs := 4
+	if g.Thorough() {
+		maxArgs = 5
+	}
+	recA(nil, maxArgs)
+	for _, f := range forms {
+		for _, al := range argLists {
+			t := f[0] + al + f[1]
+			emit(g, t)
+			if len(al) <= 11 {
+				emit(g, "["+t+"]")
+				emit(g, "Array["+t+", 1]")
+				emit(g, "{k => "+t+"}")
+			}
+		}
+	}
+
 	// (i') resolution: every core type name applied to every argument list of length <= 2 over one representative
 	// per kind of argument (the universe in which "resolving returns a type or a reported error" is enumerated),
 	// plus sampled lists of length 3 and 4
@@ -194,6 +227,7 @@ func gen(g *core.G) {
 			for j := 0; j < k; j++ {
 				emit(g, e[:i]+string(ins[g.Rng.Intn(len(ins))])+e[i:])
 			}
+			emit(g, e[:i]+" => "+e[i:])
 		}
 	}
 
